@@ -85,7 +85,7 @@ func drainTopic(addr, topic string, n int, timeout time.Duration) ([][]byte, err
 	c.SetDeadline(time.Now().Add(timeout))
 	rdy := n
 	if rdy > 2500 {
-		rdy = 2500
+		return nil, fmt.Errorf("%d messages: more than one RDY window (2500), not supported by this reader", n)
 	}
 	if _, err := fmt.Fprintf(c, "  V2SUB %s c\nRDY %d\n", topic, rdy); err != nil {
 		return nil, err
@@ -108,12 +108,23 @@ func drainTopic(addr, topic string, n int, timeout time.Duration) ([][]byte, err
 			if len(data) < 26 {
 				return out, fmt.Errorf("short message frame")
 			}
+			// no FIN: the topic is deleted right after, and a FIN still being processed while the channel is
+			// emptied runs into nsqd's FIN-vs-Empty race (stale in-flight heap index), which would take this
+			// process down -- that race belongs to another property
 			out = append(out, data[26:])
-			fmt.Fprintf(c, "FIN %s\n", data[10:26])
-			if rdy < n && len(out)%rdy == 0 {
-				fmt.Fprintf(c, "RDY %d\n", rdy)
-			}
 		}
 	}
 	return out, nil
+}
+
+// waitNoClients waits (bounded) until the channel has no client left, so that deleting the topic does not race
+// with the connection's own cleanup inside nsqd.
+func waitNoClients(n *nsqd.NSQD, topic, channel string) {
+	for i := 0; i < 400; i++ {
+		st := n.GetStats(topic, channel, false)
+		if len(st.Topics) != 1 || len(st.Topics[0].Channels) != 1 || st.Topics[0].Channels[0].ClientCount == 0 {
+			return
+		}
+		time.Sleep(5 * time.Millisecond)
+	}
 }
